@@ -56,7 +56,8 @@ type Behaviour struct {
 	Steps   []M             `json:"steps"`
 	Driver  int             `json:"driver"` // number of code-led driver steps appended to Steps
 	ExportEvery int         `json:"export_every"` // driver behaviours: an ExportImport observation after every k-th driver step
-	Probes  int             `json:"probes"` // after every step: this many driver messages tried on throw-away branches of the state
+	Probes  int             `json:"probes"`
+	ProbeMsgs []M           `json:"probe_msgs"` // edge cover: these messages are tried on throw-away branches of the genesis state // after every step: this many driver messages tried on throw-away branches of the state
 
 	weakResolved bool
 }
@@ -171,6 +172,12 @@ func (r *runner) run() {
 	r.lines = append(r.lines, &Line{K: "init", ID: b.ID, St: st, Ds: r.lastData, Xs: r.lastX, Ob: ob,
 		Ev: M{"type": "Init", "m": M{"type": "Init"}, "ok": true, "resp": noneResp(), "signers": []string{}, "dom": "spec"}})
 
+	for _, m := range b.ProbeMsgs {
+		r.probeOne(cloneM(m), "spec")
+		if r.fatal != "" {
+			return
+		}
+	}
 	for _, m := range b.Steps {
 		r.step(cloneM(m)) // the concretiser rewrites amount leaves; keep the behaviour pristine for replicas
 		if r.fatal != "" {
@@ -324,11 +331,56 @@ func (r *runner) probes(st *State) {
 	}
 	for j := 0; j < r.b.Probes; j++ {
 		m := cloneM(r.pdrv.next(st))
-		typ := str(m, "type")
-		if typ == "BeginBlock" {
+		if str(m, "type") == "BeginBlock" {
 			continue
 		}
 		delete(m, "dom")
+		r.probeOne(m, "driver")
+		if r.fatal != "" {
+			return
+		}
+	}
+}
+
+// probeBlock runs the module's begin-block hook at block time t on a throw-away branch.
+func (r *runner) probeBlock(m M, dom string) {
+	t := TickTime(int(num(m, "t")))
+	ctx := r.app.Ctx()
+	cctx, _ := ctx.CacheContext()
+	hdr := r.app.header
+	hdr.Time = t
+	cctx = cctx.WithBlockHeader(hdr)
+	panicked := ""
+	func() {
+		defer func() {
+			if p := recover(); p != nil {
+				panicked = fmt.Sprint(p)
+			}
+		}()
+		r.app.eco.BeginBlock(cctx, abci.RequestBeginBlock{Header: hdr})
+	}()
+	ev := M{"type": "BeginBlock", "m": m, "dom": dom, "resp": noneResp(), "signers": []string{"none"}, "ok": panicked == ""}
+	ob := M{"panicked": panicked != "", "panic": panicked, "probe": true, "inv_batch_supply": "", "inv_basket_supply": ""}
+	pst, notes := r.app.ProjectEco(cctx)
+	for k, v := range obsOf(notes) {
+		ob[k] = v
+	}
+	r.lines = append(r.lines, &Line{K: "probe", Ev: ev, St: pst, Ob: ob})
+	rst, rnotes := r.app.ProjectEco(ctx)
+	rob := obsOf(rnotes)
+	rob["inv_batch_supply"], rob["inv_basket_supply"], rob["panicked"] = "", "", false
+	r.lines = append(r.lines, &Line{K: "restore", St: rst, Ob: rob,
+		Ev: M{"type": "Restore", "m": M{"type": "Restore"}, "ok": true, "resp": noneResp(), "signers": []string{}, "dom": "spec"}})
+}
+
+// probeOne tries one abstract message on a throw-away branch of the current state.
+func (r *runner) probeOne(m M, dom string) {
+	{
+		typ := str(m, "type")
+		if typ == "BeginBlock" {
+			r.probeBlock(m, dom)
+			return
+		}
 		msg, err := r.prof.Concretise(m)
 		if err != nil {
 			r.fatal = err.Error()
@@ -338,7 +390,7 @@ func (r *runner) probes(st *State) {
 		for _, s := range msg.GetSigners() {
 			signers = append(signers, Name(s))
 		}
-		ev := M{"type": typ, "m": m, "dom": "driver", "resp": noneResp(), "signers": signers, "ok": false}
+		ev := M{"type": typ, "m": m, "dom": dom, "resp": noneResp(), "signers": signers, "ok": false}
 		ob := M{"panicked": false, "probe": true}
 		ctx := r.app.Ctx()
 		cctx, _ := ctx.CacheContext()
@@ -564,8 +616,36 @@ func (r *runner) write(w *bufio.Writer) {
 		w.WriteByte('\n')
 		return
 	}
+	// probe lines carry only the tables that differ from the main state ("d"); restore
+	// lines carry no state at all -- the trace specification keeps the main state
+	var base map[string]json.RawMessage
+	fields := func(st *State) map[string]json.RawMessage {
+		bz, err := json.Marshal(st)
+		must(err)
+		var m map[string]json.RawMessage
+		must(json.Unmarshal(bz, &m))
+		return m
+	}
 	for _, l := range r.lines {
-		bz, err := json.Marshal(l)
+		var bz []byte
+		var err error
+		switch {
+		case l.St != nil && l.K == "probe" && base != nil:
+			d := map[string]json.RawMessage{}
+			for k, v := range fields(l.St) {
+				if string(base[k]) != string(v) {
+					d[k] = v
+				}
+			}
+			bz, err = json.Marshal(M{"k": l.K, "ev": l.Ev, "ob": l.Ob, "d": d})
+		case l.K == "restore":
+			bz, err = json.Marshal(M{"k": l.K, "ev": l.Ev, "ob": l.Ob})
+		default:
+			if l.St != nil {
+				base = fields(l.St)
+			}
+			bz, err = json.Marshal(l)
+		}
 		must(err)
 		w.Write(bz)
 		w.WriteByte('\n')
